@@ -64,6 +64,7 @@ type schedEngine struct {
 	mu      sync.Mutex
 	events  []string
 	active  bool
+	locks   bool
 	wait    time.Duration
 	started bool
 }
@@ -131,6 +132,22 @@ func (e *schedEngine) hook(name string) {
 		e.roles.Store(gid, role)
 	}
 	e.log(fmt.Sprintf("%s@%s", role, name))
+}
+
+// lockHook is the scheduling point in front of every lock acquisition (verifhook.Mutex / RWMutex): a scheduled thread
+// parks and reports true (it then never blocks inside the mutex: it parks again at "lock.busy" until TryLock succeeds);
+// any other goroutine blocks in the mutex as usual.
+func (e *schedEngine) lockHook(name string) bool {
+	if !e.active || !e.locks {
+		return false
+	}
+	if v, ok := e.byGID.Load(curGID()); ok {
+		t := v.(*sthread)
+		t.arrived <- name
+		<-t.resume
+		return e.active
+	}
+	return false
 }
 
 func (e *schedEngine) execOp(op string) string {
@@ -321,11 +338,14 @@ func (e *schedEngine) Exec(op *Op) string {
 			sched = append(sched, n)
 		}
 		verifhook.Set(e.hook)
+		e.locks = op.Arg("locks") == "1"
+		verifhook.SetLock(e.lockHook)
 		e.active = true
 		for _, t := range e.threads {
 			e.startThread(t)
 		}
 		steps := 0
+		busyRounds := 0
 		maxSteps, _ := strconv.Atoi(op.Arg("max"))
 		si := 0
 		// directed plan: "name:n;name:n;..." releases the named thread up to n times (until it is done or blocked)
@@ -395,6 +415,17 @@ func (e *schedEngine) Exec(op *Op) string {
 				}
 				continue
 			}
+			// threads waiting for a busy lock move only when nobody else can (the holder may be an unscheduled goroutine)
+			var free []*sthread
+			for _, t := range parked {
+				if t.point != "lock.busy" {
+					free = append(free, t)
+				}
+			}
+			if len(free) > 0 && (len(free) == len(parked) || busyRounds%8 != 7) {
+				parked = free
+			}
+			busyRounds++
 			pick := sched[si%len(sched)] % len(parked)
 			si++
 			e.step(parked[pick])
@@ -404,6 +435,27 @@ func (e *schedEngine) Exec(op *Op) string {
 		for _, t := range e.threads {
 			if t.state == "running" {
 				e.await(t, 300*time.Millisecond)
+			}
+		}
+		if e.locks {
+			// step budget exhausted with threads parked (possibly holding locks): let them run to completion unscheduled
+			var rel []*sthread
+			for _, t := range e.threads {
+				if t.state == "parked" {
+					rel = append(rel, t)
+				}
+			}
+			if len(rel) > 0 {
+				e.active = false
+				for _, t := range rel {
+					e.log(fmt.Sprintf("%s:free:%s", t.name, t.point))
+					t.state = "running"
+					t.resume <- struct{}{}
+				}
+				for _, t := range e.threads {
+					for t.state == "running" && e.await(t, 2*time.Second) {
+					}
+				}
 			}
 		}
 		var stuck []string
